@@ -20,6 +20,8 @@ from typing import List, Dict, Any
 from time import time, perf_counter
 from dataclasses import dataclass
 
+import numpy as np
+
 from syne_tune.constants import (
     ST_INSTANCE_TYPE,
     ST_INSTANCE_COUNT,
@@ -29,7 +31,6 @@ from syne_tune.constants import (
     ST_WORKER_ITER,
     ST_SAGEMAKER_METRIC_TAG,
 )
-from syne_tune.util import dump_json_with_numpy
 
 # this is required so that metrics are written
 from syne_tune.backend.sagemaker_backend.instance_info import InstanceInfos
@@ -132,6 +133,19 @@ def _report_logger(**kwargs):
     sys.stdout.flush()
 
 
+def _np_encoder_strict(obj):
+    """
+    Like the encoder of :func:`~syne_tune.util.dump_json_with_numpy`, but values
+    which cannot be serialized raise ``TypeError`` instead of being written as
+    ``null``
+    """
+    if isinstance(obj, np.generic):
+        return obj.item()
+    raise TypeError(
+        f"Object of type {obj.__class__.__name__} is not JSON serializable"
+    )
+
+
 def _serialize_report_dict(report_dict: Dict[str, Any]) -> str:
     """
     :param report_dict: a dictionary of metrics to be serialized
@@ -139,7 +153,7 @@ def _serialize_report_dict(report_dict: Dict[str, Any]) -> str:
     if the dictionary values are not JSON-serializable
     """
     try:
-        report_str = dump_json_with_numpy(report_dict)
+        report_str = json.dumps(report_dict, default=_np_encoder_strict)
         assert sys.getsizeof(report_str) < 50_000
         return report_str
     except TypeError as e:
